@@ -11,7 +11,13 @@ import (
 var codes = []int{200, 201, 202, 400, 404, 418, 500}
 var aeVals = []string{"", "gzip", "deflate", "gzip, deflate", "deflate, gzip", "gzip;q=0", "identity", "x-gzip", "br", "GZIP", "garbage", "deflate;q=0.5, gzip;q=1.0", "*"}
 
+// SmallPayloads caps generated payloads at a few dozen bytes (streams whose subject is not the coding).
+var SmallPayloads bool
+
 func payload(r *rng.R) string {
+	if SmallPayloads {
+		return strconv.Itoa(10000 + r.Intn(90000))[:1+r.Intn(4)]
+	}
 	n := 0
 	switch r.Intn(10) {
 	case 0:
@@ -96,6 +102,7 @@ func genFilters(r *rng.R, max int, id, hdrN *int, panicPct int) []Filter {
 
 // GenOpts tunes the serve generator for a property.
 type GenOpts struct {
+	Overlap  bool // bias towards what overlapping requests can disturb: 3 or 5 passing container filters, a filter on every service
 	Router   string
 	PanicPct int // per-act probability (percent) of a panic in filters; handlers get twice that
 	Media    bool
@@ -117,9 +124,20 @@ func GenCfg(r *rng.R, o GenOpts) *Cfg {
 		}
 	}
 	cfg.Plain = genActs(r, 3, false, o.PanicPct*2, &hdrN)
-	cfg.CF = genFilters(r, 3, &id, &hdrN, o.PanicPct)
+	cfg.CF = genFilters(r, 3+2*r.Intn(2), &id, &hdrN, o.PanicPct) // up to 5: appended one by one the slice then has spare capacity
+	if o.Overlap {
+		for len(cfg.CF) != 3 && len(cfg.CF) != 5 {
+			cfg.CF = append(cfg.CF, genFilter(r, &id, &hdrN, 0))
+		}
+		for i := range cfg.CF {
+			cfg.CF[i].Kind = "pass"
+		}
+	}
 	for _, s := range cfg.Routing.Services {
 		cfg.SvcF[s.ID] = genFilters(r, 2, &id, &hdrN, o.PanicPct)
+		if o.Overlap && len(cfg.SvcF[s.ID]) == 0 {
+			cfg.SvcF[s.ID] = []Filter{genFilter(r, &id, &hdrN, 0)}
+		}
 		for _, rt := range s.Routes {
 			rx := &RouteX{ID: rt.ID, Script: genActs(r, 4, true, o.PanicPct*2, &hdrN), Filters: genFilters(r, 2, &id, &hdrN, o.PanicPct)}
 			switch r.Intn(7) {
